@@ -125,3 +125,25 @@ for _present in (True, False):
             params={"comp": _classes, "pop": "const:None", "framework": "const:None", "parset": "const:None"},
             ghost_params={"key": "const:'k'"}, stubs={"(comp.name, pop.name)": "key"},
             requires=_req, modifies=_mod, ensures=_ens, frame_props=["C10"], defined_props=["C10"])
+
+
+# ---- Population.initialize_compartments, the branch for a saved state (C10): when the parameter set carries a saved state, that state is applied and NOTHING else is done -- the
+# databook solve below must not run over it; without a saved state nothing is applied here
+def _env_init_branch(saved):
+    def make(it):
+        from pyvc.interp import PyObjV
+        from pyvc import source
+
+        return {"self": PyObjV("Population", source.load("model"), {"name": "pop", "comps": ["c"]}), "framework": "FRAMEWORK",
+                "parset": PyObjV("ParameterSet", source.load("parameters"), {"name": "ps", "initialization": ("SAVED STATE" if saved else None), "APPLIED": []})}
+
+    return make
+
+
+_apply_stub = {"parset.apply_initialization": (lambda it, pop, framework: it.stub_receiver.fields["APPLIED"].append((pop, framework)))}
+CONTRACTS["model:Population.initialize_compartments#with_a_saved_state"] = dict(
+    schema=schema, fragment={"stmt_top": "if parset.initialization is not None"}, make_env=_env_init_branch(True), call_stubs=_apply_stub,
+    ensures=[("C10.the_saved_state_is_applied_to_this_population_and_nothing_else_is_done", "len(parset.APPLIED) == 1 and parset.APPLIED[0][0] is self and parset.APPLIED[0][1] == 'FRAMEWORK' and LOOP_EXIT == 'return'")], defined_props=["C10"])
+CONTRACTS["model:Population.initialize_compartments#without_a_saved_state"] = dict(
+    schema=schema, fragment={"stmt_top": "if parset.initialization is not None"}, make_env=_env_init_branch(False), call_stubs=_apply_stub,
+    ensures=[("C10+C07.without_a_saved_state_the_databook_values_are_used", "len(parset.APPLIED) == 0 and LOOP_EXIT == 'end'")], defined_props=["C10", "C07"])
